@@ -3,7 +3,7 @@
    (event classes, step shapes) is in coq/C12/Spec.v. *)
 From Coq Require Import List Arith Bool QArith.
 From Scenic Require C11.LTL.
-From Scenic Require Import C12.Dyn C12.Spec C12.DynProofs C12.DoFor.
+From Scenic Require Import C12.Dyn C12.Spec C12.DynProofs C12.DoFor C12.Silent.
 Import ListNotations.
 Local Open Scope nat_scope.
 
@@ -167,7 +167,7 @@ Definition ex_prog : program :=
                       {| b_pre := []; b_inv := []; b_body := [SWhile (CConst true) [STake 5]] |} ];
      p_monitors := [ [SWhile (CConst true) [SMark 7; SWait]] ];
      p_scenarios := [ {| s_pre := []; s_inv := []; s_limit := Some (inject_Z 5); s_termwhen := [];
-                         s_monitors := [0]; s_reqs := []; s_compose := None |} ];
+                         s_monitors := [0]; s_reqs := []; s_compose := None; s_records := []; s_termsim := [] |} ];
      p_objects := [Some 0]; p_rec_init := []; p_records := [3]; p_rec_final := []; p_termsim := []; p_reqs := [] |}.
 Example C12_example :
   let '(res, evs) := simulate true 50 100 ex_prog {| w_tab := [] |} (Some 9) (fun _ => [0]) in
@@ -183,7 +183,7 @@ Proof. vm_compute. repeat split; reflexivity. Qed.
 Definition ex_req_prog (f : LTL.formula) : program :=
   {| p_behaviors := []; p_monitors := [];
      p_scenarios := [ {| s_pre := []; s_inv := []; s_limit := Some (inject_Z 2); s_termwhen := [];
-                         s_monitors := []; s_reqs := [0]; s_compose := None |} ];
+                         s_monitors := []; s_reqs := [0]; s_compose := None; s_records := []; s_termsim := [] |} ];
      p_objects := [None]; p_rec_init := []; p_records := [3]; p_rec_final := []; p_termsim := [];
      p_reqs := [(f, [CTab 0])] |}.
 Example C12_requirement_sees_limit_step :
@@ -194,3 +194,54 @@ Example C12_requirement_sees_limit_step :
   (let '(res, evs) := simulate true 50 100 (ex_req_prog (LTL.Always (LTL.Atom 0))) {| w_tab := [[false; true; true]] |} None (fun _ => []) in
    r_kind res = RSceneRejected).
 Proof. vm_compute. repeat split; reflexivity. Qed.
+
+(* ---- a scenario that has stopped contributes no events, conditions or records (coq/C12/Silent.v).
+   `_subScenarios` = the list of RUNNING sub-scenario instances; the per-step traversals (record statements,
+   `terminate simulation when` conditions of sub-scenarios) range over that tree only. *)
+(* an instance whose _step reports that it stopped is not in the list the parent keeps: the new list is exactly the
+   continuing instances, in order *)
+Theorem C12_stopped_subscenario_leaves_list : forall recscen subs l e,
+  step_subs recscen subs = (l, None, e) -> l = continued recscen subs.
+Proof. exact step_subs_keeps_only_running. Qed.
+(* when the last sub-scenario of a `do` has finished, the compose block goes on in the same step with the EMPTY list,
+   whatever follows -- it need not execute another `do` -- and a following `wait` yields with the empty list *)
+Theorem C12_do_finished_continues_with_empty_list : forall f P w t sid ib o subs first k' e,
+  step_subs (step_scen f P w t) subs = ([], None, e) ->
+  run (S f) P w t (MScen sid) ib o subs (FScen first :: k') = emit e (run f P w t (MScen sid) ib o [] k').
+Proof. exact do_finished_continues_with_empty_list. Qed.
+Theorem C12_wait_after_do_keeps_empty_list : forall f P w t sid ib o ss k0,
+  run (S f) P w t (MScen sid) ib o [] (FSeq (SWait :: ss) :: k0) = (OYield (YActs []) (FCheck o :: FSeq ss :: k0), [], []).
+Proof. exact wait_after_do_keeps_empty_list. Qed.
+(* the handler of `do S for/until` empties the list *)
+Theorem C12_stop_subs_empties_list : forall f P w t m ib o subs ss k0,
+  stops_ok P subs = true ->
+  run (S f) P w t m ib o subs (FSeq (SStopSubs :: ss) :: k0) = run f P w t m ib o [] (FSeq ss :: k0).
+Proof. exact stop_subs_empties_list. Qed.
+(* stopped_scenario_silent: with no running sub-scenario left after the scenario phase of a step, the records
+   evaluated and the simulation-termination conditions checked in that step are exactly the top-level scenario's *)
+Theorem C12_stopped_scenario_silent : forall fuel P w s st',
+  subs_of st' = [] ->
+  phase_record_all fuel P w s (SCont st') = phase_record P s /\
+  check_all_termsim P w (time s) (subs_of st') = check_termsim w (time s) 0 (p_termsim P).
+Proof. exact stopped_scenario_silent. Qed.
+(* and in general the records / conditions of the tree are those of the classes of the instances in it *)
+Theorem C12_tree_records_by_instance : forall P st, tree_records P st = flat_map (class_records P) (tree_sids st).
+Proof. exact tree_records_by_instance. Qed.
+Theorem C12_tree_termsim_by_instance : forall P st, tree_termsim P st = flat_map (class_termsim P) (tree_sids st).
+Proof. exact tree_termsim_by_instance. Qed.
+(* non-vacuity: Main = `do S1(); wait; wait`, S1 = `terminate after 1 steps`, `record r100`, `terminate simulation when
+   <true from step 1 on>`: S1 runs step 0 only; the simulation ends with scenarioComplete at step 3, one sample *)
+Example C12_stopped_scenario_silent_example :
+  let P := {| p_behaviors := []; p_monitors := [];
+     p_scenarios := [ {| s_pre := []; s_inv := []; s_limit := None; s_termwhen := []; s_monitors := []; s_reqs := [];
+                         s_compose := Some [SDoScen [1]; SWait; SWait]; s_records := []; s_termsim := [] |};
+                      {| s_pre := []; s_inv := []; s_limit := Some (1 # 1)%Q; s_termwhen := []; s_monitors := []; s_reqs := [];
+                         s_compose := Some [SWhile (CConst true) [SWait]]; s_records := [100]; s_termsim := [(100, CTab 0)] |} ];
+     p_objects := [None]; p_rec_init := []; p_records := []; p_rec_final := []; p_termsim := []; p_reqs := [] |} in
+  let r := simulate false 20 200 P {| w_tab := [[false; true; true; true; true]] |} (Some 10) (fun _ => []) in
+  r_kind (fst r) = RDone TScenarioComplete /\ r_time (fst r) = 3 /\
+  filter (fun e => match e with ERecord _ | ETermCheck _ => true | _ => false end) (snd r) = [ERecord 100; ETermCheck 100].
+Proof. vm_compute. repeat split; reflexivity. Qed.
+Print Assumptions C12_stopped_scenario_silent.
+Print Assumptions C12_do_finished_continues_with_empty_list.
+Print Assumptions C12_stopped_subscenario_leaves_list.
